@@ -15,14 +15,46 @@ Ltac nz Hc Hd := repeat match goal with
   end.
 
 (* ---------------- PolyPade ---------------- *)
+(* Canonical spellings of the five radial expressions (hand-written; they are the expressions func3d.py had when these proofs were written).
+   The theorems below are proved for them once; gen/Func3d_Gen.v, regenerated from the current source, is tied to them by the bridging lemmas
+   br_* which hold for ALL arguments with no side condition: both sides are brought to a normal form in which every denominator is an atom
+   (Rinv distributed over products and powers, each Rinv argument ring-normalised) and compared by ring. A source that spells the same rational
+   functions differently (hoisted factors, x*x for x**2, helper functions) therefore re-proves without change. *)
+Definition ppc_value (r : R) (beta : R) (rcut : R) : R := ((1 - (((((3 * (r / rcut)) - 8) * (r / rcut)) + 6) * ((r / rcut) ^ 2))) / (1 + (beta * (((((3 * (r / rcut)) - 8) * (r / rcut)) + 6) * ((r / rcut) ^ 2))))).
+Definition ppc_gv_gradr (r : R) (beta : R) (rcut : R) : R := (1 * (((((r / rcut) - 1) * (1 / (1 + (beta * (((((3 * ((r / rcut) - 1)) + 4) * (((r / rcut) - 1) ^ 2)) * ((r / rcut) - 1)) + 1))))) ^ 2) * (((- (1 + beta)) * 12) / (rcut ^ 2)))).
+Definition ppc_gv_value (r : R) (beta : R) (rcut : R) : R := ((1 - (((((3 * ((r / rcut) - 1)) + 4) * (((r / rcut) - 1) ^ 2)) * ((r / rcut) - 1)) + 1)) * (1 / (1 + (beta * (((((3 * ((r / rcut) - 1)) + 4) * (((r / rcut) - 1) ^ 2)) * ((r / rcut) - 1)) + 1))))).
+Definition ppc_gl_gradr (r : R) (beta : R) (rcut : R) : R := (1 * (((((- (1 + beta)) * 12) / (rcut ^ 2)) * ((1 / (1 + (beta * ((((3 * (((r / rcut) - 1) * ((r / rcut) - 1))) + (4 * ((r / rcut) - 1))) * (((r / rcut) - 1) * ((r / rcut) - 1))) + 1)))) ^ 2)) * (((r / rcut) - 1) * ((r / rcut) - 1)))).
+Definition ppc_gl_lap (r : R) (beta : R) (rcut : R) : R := ((((((- (1 + beta)) * 12) / (rcut ^ 2)) * ((1 / (1 + (beta * ((((3 * (((r / rcut) - 1) * ((r / rcut) - 1))) + (4 * ((r / rcut) - 1))) * (((r / rcut) - 1) * ((r / rcut) - 1))) + 1)))) ^ 2)) * (((r / rcut) - 1) * ((r / rcut) - 1))) * ((5 + (2 / ((r / rcut) - 1))) - ((((24 * beta) * ((((r / rcut) - 1) + 1) ^ 2)) * (((r / rcut) - 1) * ((r / rcut) - 1))) * (1 / (1 + (beta * ((((3 * (((r / rcut) - 1) * ((r / rcut) - 1))) + (4 * ((r / rcut) - 1))) * (((r / rcut) - 1) * ((r / rcut) - 1))) + 1))))))).
+
+Ltac canon_step F :=
+  match goal with
+  | |- context [F ?a] =>
+      let x := fresh "arg" in let Hx := fresh "Harg" in
+      pose (x := a); assert (Hx : x = a) by reflexivity; ring_simplify in Hx;
+      match type of Hx with _ = ?a' => tryif constr_eq a a' then fail else (replace a with a' by ring) end; clear Hx; clear x
+  end.
+Ltac canon_arg F := do 20 (try canon_step F).
+Ltac inv_norm := unfold Rdiv; rewrite ?Rinv_mult; rewrite <- ?pow_inv; canon_arg Rinv; ring.
+
+Lemma br_value r beta rcut : pp_value r beta rcut = ppc_value r beta rcut.
+Proof. unfold pp_value, ppc_value. first [reflexivity | inv_norm]. Qed.
+Lemma br_gv_value r beta rcut : pp_gv_value r beta rcut = ppc_gv_value r beta rcut.
+Proof. unfold pp_gv_value, ppc_gv_value. first [reflexivity | inv_norm]. Qed.
+Lemma br_gv_gradr r beta rcut : pp_gv_gradr r beta rcut = ppc_gv_gradr r beta rcut.
+Proof. unfold pp_gv_gradr, ppc_gv_gradr. first [reflexivity | inv_norm]. Qed.
+Lemma br_gl_gradr r beta rcut : pp_gl_gradr r beta rcut = ppc_gl_gradr r beta rcut.
+Proof. unfold pp_gl_gradr, ppc_gl_gradr. first [reflexivity | inv_norm]. Qed.
+Lemma br_gl_lap r beta rcut : pp_gl_lap r beta rcut = ppc_gl_lap r beta rcut.
+Proof. unfold pp_gl_lap, ppc_gl_lap. first [reflexivity | inv_norm]. Qed.
+
 Definition pp_p (r rcut : R) : R := (3 * (r / rcut - 1) + 4) * (r / rcut - 1) ^ 2 * (r / rcut - 1) + 1.
 
-Lemma pp_values_agree r beta rcut : rcut <> 0 -> pp_value r beta rcut = pp_gv_value r beta rcut.
-Proof. intros Hc. unfold pp_value, pp_gv_value. unfold Rdiv at 1. f_equal; [field; exact Hc|]. unfold Rdiv. rewrite Rmult_1_l. f_equal. f_equal. f_equal. field. exact Hc. Qed.
+Lemma pp_values_agree r beta rcut : rcut <> 0 -> ppc_value r beta rcut = ppc_gv_value r beta rcut.
+Proof. intros Hc. unfold ppc_value, ppc_gv_value. unfold Rdiv at 1. f_equal; [field; exact Hc|]. unfold Rdiv. rewrite Rmult_1_l. f_equal. f_equal. f_equal. field. exact Hc. Qed.
 
-Lemma pp_gradr_agree r beta rcut : pp_gv_gradr r beta rcut = pp_gl_gradr r beta rcut.
+Lemma pp_gradr_agree r beta rcut : ppc_gv_gradr r beta rcut = ppc_gl_gradr r beta rcut.
 Proof.
-  unfold pp_gv_gradr, pp_gl_gradr.
+  unfold ppc_gv_gradr, ppc_gl_gradr.
   replace ((3 * ((r / rcut - 1) * (r / rcut - 1)) + 4 * (r / rcut - 1)) * ((r / rcut - 1) * (r / rcut - 1)) + 1)
     with ((3 * (r / rcut - 1) + 4) * (r / rcut - 1) ^ 2 * (r / rcut - 1) + 1) by ring.
   ring.
@@ -39,28 +71,28 @@ Qed.
 
 (* d value / d r = r * G(r): the gradient vector rvec * G is the gradient of the value *)
 Theorem pp_value_derivative r beta rcut : rcut <> 0 -> 1 + beta * pp_p r rcut <> 0 ->
-  is_derive (fun x => pp_gv_value x beta rcut) r (r * pp_gv_gradr r beta rcut).
+  is_derive (fun x => ppc_gv_value x beta rcut) r (r * ppc_gv_gradr r beta rcut).
 Proof.
-  intros Hc Hd. pose proof (pp_den_norm r beta rcut Hc Hd) as Hn. unfold pp_gv_value, pp_gv_gradr, pp_p in *.
+  intros Hc Hd. pose proof (pp_den_norm r beta rcut Hc Hd) as Hn. unfold ppc_gv_value, ppc_gv_gradr, pp_p in *.
   auto_derive.
   - nz Hc Hd.
   - field. split; [exact Hc | exact Hn].
 Qed.
 
-Theorem pp_value_zero_at_cutoff beta rcut : rcut <> 0 -> pp_gv_value rcut beta rcut = 0 /\ pp_value rcut beta rcut = 0.
+Theorem pp_value_zero_at_cutoff beta rcut : rcut <> 0 -> ppc_gv_value rcut beta rcut = 0 /\ ppc_value rcut beta rcut = 0.
 Proof.
-  intros Hc. rewrite pp_values_agree by exact Hc. split; unfold pp_gv_value; replace (rcut / rcut - 1) with 0 by (field; exact Hc); ring.
+  intros Hc. rewrite pp_values_agree by exact Hc. split; unfold ppc_gv_value; replace (rcut / rcut - 1) with 0 by (field; exact Hc); ring.
 Qed.
-Theorem pp_slope_zero_at_cutoff beta rcut : rcut <> 0 -> pp_gv_gradr rcut beta rcut = 0 /\ pp_gl_gradr rcut beta rcut = 0.
-Proof. intros Hc. rewrite <- pp_gradr_agree. split; unfold pp_gv_gradr; replace (rcut / rcut - 1) with 0 by (field; exact Hc); ring. Qed.
+Theorem pp_slope_zero_at_cutoff beta rcut : rcut <> 0 -> ppc_gv_gradr rcut beta rcut = 0 /\ ppc_gl_gradr rcut beta rcut = 0.
+Proof. intros Hc. rewrite <- pp_gradr_agree. split; unfold ppc_gv_gradr; replace (rcut / rcut - 1) with 0 by (field; exact Hc); ring. Qed.
 
 (* the Laplacian without the removable 2/z1 singularity *)
 Definition pp_lap_regular (r beta rcut : R) : R :=
   let z1 := r / rcut - 1 in let obp := 1 / (1 + beta * pp_p r rcut) in
   - (1 + beta) * 12 / rcut ^ 2 * obp ^ 2 * (5 * z1 * z1 + 2 * z1 - 24 * beta * (z1 + 1) ^ 2 * (z1 * z1) * (z1 * z1) * obp).
-Theorem pp_lap_regular_form r beta rcut : r <> rcut -> rcut <> 0 -> pp_gl_lap r beta rcut = pp_lap_regular r beta rcut.
+Theorem pp_lap_regular_form r beta rcut : r <> rcut -> rcut <> 0 -> ppc_gl_lap r beta rcut = pp_lap_regular r beta rcut.
 Proof.
-  intros Hr Hc. unfold pp_gl_lap, pp_lap_regular, pp_p. cbv zeta.
+  intros Hr Hc. unfold ppc_gl_lap, pp_lap_regular, pp_p. cbv zeta.
   assert (Hz : r / rcut - 1 <> 0). { intro H. apply Hr. apply (Rmult_eq_reg_r (/ rcut)); [|apply Rinv_neq_0_compat; exact Hc]. rewrite Rinv_r by exact Hc. unfold Rdiv in H. lra. }
   set (z1 := r / rcut - 1) in *.
   replace ((3 * (z1 * z1) + 4 * z1) * (z1 * z1) + 1) with ((3 * z1 + 4) * z1 ^ 2 * z1 + 1) by ring.
@@ -74,15 +106,45 @@ Proof. intros Hc. unfold pp_lap_regular. cbv zeta. replace (rcut / rcut - 1) wit
 
 (* lap = f'' + 2 f'/r with f' = r G:  d(r G)/dr = lap - 2 G *)
 Theorem pp_laplacian_is_second_derivative r beta rcut : r <> rcut -> rcut <> 0 -> 1 + beta * pp_p r rcut <> 0 ->
-  is_derive (fun x => x * pp_gl_gradr x beta rcut) r (pp_gl_lap r beta rcut - 2 * pp_gl_gradr r beta rcut).
+  is_derive (fun x => x * ppc_gl_gradr x beta rcut) r (ppc_gl_lap r beta rcut - 2 * ppc_gl_gradr r beta rcut).
 Proof.
-  intros Hr Hc Hd. pose proof (pp_den_norm r beta rcut Hc Hd) as Hn. unfold pp_gl_lap, pp_gl_gradr, pp_p in *.
+  intros Hr Hc Hd. pose proof (pp_den_norm r beta rcut Hc Hd) as Hn. unfold ppc_gl_lap, ppc_gl_gradr, pp_p in *.
   assert (Hz : r - rcut <> 0) by lra.
   auto_derive.
   - nz Hc Hd; lra.
   - field. repeat split; try exact Hc; try exact Hz.
     intro H. apply Hn. rewrite <- H. ring.
 Qed.
+
+
+(* ---- the same statements about the definitions generated from the current source ---- *)
+Theorem gen_pp_values_agree r beta rcut : rcut <> 0 -> pp_value r beta rcut = pp_gv_value r beta rcut.
+Proof. rewrite br_value, br_gv_value. apply pp_values_agree. Qed.
+Theorem gen_pp_gradr_agree r beta rcut : pp_gv_gradr r beta rcut = pp_gl_gradr r beta rcut.
+Proof. rewrite br_gv_gradr, br_gl_gradr. apply pp_gradr_agree. Qed.
+Theorem gen_pp_value_derivative r beta rcut : rcut <> 0 -> 1 + beta * pp_p r rcut <> 0 ->
+  is_derive (fun x => pp_gv_value x beta rcut) r (r * pp_gv_gradr r beta rcut).
+Proof.
+  intros Hc Hd. rewrite br_gv_gradr. apply (is_derive_ext (fun x => ppc_gv_value x beta rcut)); [intros t; symmetry; apply br_gv_value|].
+  apply pp_value_derivative; assumption.
+Qed.
+Theorem gen_pp_laplacian_is_second_derivative r beta rcut : r <> rcut -> rcut <> 0 -> 1 + beta * pp_p r rcut <> 0 ->
+  is_derive (fun x => x * pp_gl_gradr x beta rcut) r (pp_gl_lap r beta rcut - 2 * pp_gl_gradr r beta rcut).
+Proof.
+  intros Hr Hc Hd. rewrite br_gl_lap, br_gl_gradr. apply (is_derive_ext (fun x => x * ppc_gl_gradr x beta rcut)); [intros t; apply f_equal; symmetry; apply br_gl_gradr|].
+  apply pp_laplacian_is_second_derivative; assumption.
+Qed.
+Theorem gen_pp_value_zero_at_cutoff beta rcut : rcut <> 0 -> pp_gv_value rcut beta rcut = 0 /\ pp_value rcut beta rcut = 0.
+Proof. rewrite br_value, br_gv_value. apply pp_value_zero_at_cutoff. Qed.
+Theorem gen_pp_slope_zero_at_cutoff beta rcut : rcut <> 0 -> pp_gv_gradr rcut beta rcut = 0 /\ pp_gl_gradr rcut beta rcut = 0.
+Proof. rewrite br_gv_gradr, br_gl_gradr. apply pp_slope_zero_at_cutoff. Qed.
+Theorem gen_pp_lap_regular_form r beta rcut : r <> rcut -> rcut <> 0 -> pp_gl_lap r beta rcut = pp_lap_regular r beta rcut.
+Proof. rewrite br_gl_lap. apply pp_lap_regular_form. Qed.
+
+(* energy.kinetic: after the statements before the loop, two passes through the loop body and the statements after it, the kinetic energy is
+   -(lap1 + lap2)/2: each electron's Laplacian is accumulated once with the factor -1/2, wherever the factor is applied *)
+Theorem kinetic_is_minus_half_sum lap1 lap2 : kinetic_two_electrons lap1 lap2 = - (lap1 + lap2) / 2.
+Proof. unfold kinetic_two_electrons. field. Qed.
 
 (* ---------------- CutoffCusp ---------------- *)
 Definition cusp_b (r rcut : R) : R := ((r / rcut - 1) * (r / rcut - 1) * (r / rcut - 1) + 1) / 3.
